@@ -52,6 +52,26 @@ ASSUMPTIONS = ["objects stored in an OdxLinkDatabase are never None",
                "COMPARAM-SPEC / COMPARAM-SUBSET documents, DIAG-VARIABLEs, state charts, functional classes and SDG "
                "references are not generated (their references go through the same OdxLinkDatabase.resolve)"]
 
+# --- tie of kind (1) (task W20): Gen/OdxLinkResolve.lean is regenerated from OdxLinkDatabase.resolve / resolve_lenient / resolve_snref of
+# the current source by the Python->Lean translator and proved equal to the hand-written resolve / resolveLenient in strict mode
+# (Proofs/OdxLinkResolveGenEq.lean)
+LEAN_TARGETS = LEAN_TARGETS + ["OdxVerif.Props.C10Gen"]
+THEOREMS = THEOREMS + [P + t for t in ["gen_resolve_eq", "gen_resolveLenient_eq", "C10_gen_resolve_eq", "C10_gen_resolve", "C10_gen_resolve_errors",
+                                       "C10_gen_innermost_wins", "gen_resolveSnref_eq", "C10_gen_snref_eq", "C10_gen_snref_unique"]]
+TRUSTED = TRUSTED + ["translator harness/extract/py2lean.py + primitives lean/OdxVerif/Model/PyRt.lean for OdxLinkDatabase.resolve / resolve_lenient / resolve_snref "
+                     "(items = a list of the model's Obj, x.short_name = Obj.name; self._db = the model's Db, dict.get = dget, isinstance = Obj.isInst, ref.ref_docs / ref.ref_id = Ref.docs / Ref.refId are the "
+                     "abstract record interface of the rendering; strict mode; warnings.warn has no effect on the result)"]
+
+
+def regen_odxlink_resolve(ctx):
+    """Gen/OdxLinkResolve.lean from the current source; Unsupported (source left the translator's subset) = broken obligation"""
+    import common
+    from extract import py2lean
+    py2lean.regenerate_odxlink_resolve(common.REPO, common.VERIF)
+
+
+GENERATORS = list(globals().get("GENERATORS", [])) + [regen_odxlink_resolve]
+
 PROFILES = {
     "valid": {"dangling": 0.0, "wrongtype": 0.0, "ambiguous": 0.0, "imports": 0.55, "snref": 0.4},
     "faulty": {"dangling": 0.035, "wrongtype": 0.03, "ambiguous": 0.08, "imports": 0.55, "snref": 0.4, "bad_import": 0.06},
